@@ -1,4 +1,5 @@
 import TwistedModel.Defer.Cancel
+import TwistedModel.Defer.Reenter
 /-!
 Driver glue for C03.  One line = one history:
 
@@ -14,6 +15,14 @@ Output: one token per operation, `<outcome>|<snapshot>`, joined by single spaces
 `snapshot` = the cells `outer;inner0;inner1;…`, each `c<called>k<cancellerCalls>r<result>d<delivered,…>`,
 `result` = `-` (no result attribute) | `v<n>` | `e<n>` | `X` (Failure(CancelledError)) | `N` (None) | `d<i>` (inner Deferred i).
 An empty history prints `-`.
+
+`mode` = `reent`: ONE Deferred with re-entrant callbacks (model `TwistedModel/Defer/Reenter.lean`):
+
+  `C03 reent <spec> <op> …`,  `op` = `cb<v>` | `eb<k>` | `x` | `ro:<act>` (addBoth of a callback performing
+  `act` = `cb<v>` | `eb<k>` | `x` on the Deferred itself)
+
+Output per operation: `<outcome>|<cell>` and, when re-entrant callbacks ran during it, `|0/<act>/<outcome>/s,…`
+(one record per callback, in the order run; `s` = it changed nothing — a theorem of the model).
 -/
 namespace Twisted.Drv.C03
 open Twisted.Defer.Cancel
@@ -75,8 +84,52 @@ def showOutcome : Outcome → Option String
   | .cancellerRaised => some "B"
   | .badIndex => none
 
+namespace R
+open Twisted.Defer.Reenter
+
+def decAct (s : String) : Option Act :=
+  if s = "x" then some .cancel
+  else if s.startsWith "cb" then (takeNat (s.drop 2).toString).map fun v => Act.fire (.val v)
+  else if s.startsWith "eb" then (takeNat (s.drop 2).toString).map fun e => Act.fire (.err e)
+  else none
+
+def decOp (s : String) : Option Twisted.Defer.Reenter.Op :=
+  if s = "x" then some .cancel
+  else if s.startsWith "cb" then (takeNat (s.drop 2).toString).map .callback
+  else if s.startsWith "eb" then (takeNat (s.drop 2).toString).map .errback
+  else if s.startsWith "ro:" then (decAct (s.drop 3).toString).map .add
+  else none
+
+def showAct : Act → String
+  | .cancel => "x"
+  | .fire (.val v) => s!"cb{v}"
+  | .fire (.err e) => s!"eb{e}"
+  | .fire _ => "?"
+
+def showRec (r : Rec) : Option String :=
+  (showOutcome r.out).map fun o => s!"0/{showAct r.act}/{o}/s"
+
+def showStep (o : Outcome) (s : Twisted.Defer.Reenter.State) : Option String :=
+  match showOutcome o, s.log.mapM showRec with
+  | some t, some recs =>
+    let cell := showCell s.called s.cancCalls (match s.result with | none => "-" | some r => showRes r) s.delivered
+    some (t ++ "|" ++ cell ++ (if recs.isEmpty then "" else "|" ++ ",".intercalate recs))
+  | _, _ => none
+
+def handle (spec : String) (ops : List String) : String :=
+  match decSpec spec, ops.mapM decOp with
+  | some spec, some ops =>
+    match (trace (init spec) ops).mapM (fun (o, s) => showStep o s) with
+    | some [] => "-"
+    | some toks => " ".intercalate toks
+    | none => "bad-op"
+  | _, _ => "bad-op"
+
+end R
+
 def handle (args : List String) : String :=
   match args with
+  | "reent" :: spec :: ops => R.handle spec ops
   | mode :: spec :: ops =>
     let catches? : Option Bool := if mode = "repaired" then some true else if mode = "asis" then some false else none
     match catches?, decSpec spec, ops.mapM decOp with
